@@ -36,6 +36,7 @@ type c12case struct {
 	Links     [][2]string `json:"links,omitempty"`       // symlinks: path relative to the project -> target
 	ViaLink   bool        `json:"via_link,omitempty"`    // the project (and $HOME) is reached through a symlinked directory
 	LogicPWD  bool        `json:"logical_pwd,omitempty"` // $PWD holds the working directory as the user spelled it (what a shell does)
+	ProjName  string      `json:"project_directory,omitempty"` // name of the project directory ("" = proj)
 	Prior     []string    `json:"prior_outputs,omitempty"` // an earlier version of the spokfile declared these outputs and its tasks were run; then the spokfile was edited
 }
 
@@ -75,6 +76,9 @@ func c12Gen(r *core.Rng) c12case {
 	k.CleanTask = r.Chance(15)
 	k.ViaLink = r.Chance(20)
 	k.LogicPWD = r.Chance(50)
+	if r.Chance(25) {
+		k.ProjName = core.Pick(r, []string{"..proj", "proj..", "...", "-proj", "pro j", "proj[1]", "~proj"})
+	}
 	if r.Chance(15) {
 		for _, l := range []string{"gen.txt", "build", "dist", "x.o", "bin/tool", "out", "keep", "src", "notes.md", "a.txt"} {
 			if r.Chance(30) {
@@ -93,6 +97,9 @@ func c12Gen(r *core.Rng) c12case {
 			if dangerous && r.Chance(40) {
 				t = core.Pick(r, c12Dangerous[:12])
 			}
+			if t == "../proj" && k.ProjName != "" {
+				t = "../" + k.ProjName
+			}
 			k.Outs = append(k.Outs, c12out{Kind: "literal", Text: t})
 		case 1:
 			if nv >= len(c12VarNames) {
@@ -104,6 +111,9 @@ func c12Gen(r *core.Rng) c12case {
 			}
 			if dangerous && r.Chance(50) {
 				v = core.Pick(r, c12Dangerous)
+			}
+			if v == "../proj" && k.ProjName != "" {
+				v = "../" + k.ProjName
 			}
 			o := c12out{Kind: "var", Text: c12VarNames[nv], Value: v, Join: r.Chance(40)}
 			nv++
@@ -178,7 +188,12 @@ func c12Judge(c *core.Ctx, k c12case, res *core.ShardResult) (vs []core.Violatio
 	defer func() { _ = os.RemoveAll(root) }()
 	// deep enough that "above the project" is still scratch space
 	home := filepath.Join(root, "s1", "s2", "home")
-	proj := filepath.Join(home, "proj")
+	pname := "proj"
+	if k.ProjName != "" {
+		pname = k.ProjName
+		res.Seen("project_directory_names", pname)
+	}
+	proj := filepath.Join(home, pname)
 	_ = os.MkdirAll(proj, 0o755)
 	_ = os.MkdirAll(filepath.Join(home, "sibling"), 0o755)
 	_ = os.WriteFile(filepath.Join(home, "sibling", "keep.txt"), []byte("sibling"), 0o644)
@@ -199,7 +214,7 @@ func c12Judge(c *core.Ctx, k c12case, res *core.ShardResult) (vs []core.Violatio
 	if k.ViaLink {
 		shome = filepath.Join(root, "s1", "s2", "lnk")
 		_ = os.Symlink("home", shome)
-		sproj = filepath.Join(shome, "proj")
+		sproj = filepath.Join(shome, pname)
 	}
 	canon := func(p string) string { // a spelled absolute path -> the real one
 		if k.ViaLink && isUnder(p, shome) && filepath.Clean(p) != shome { // the link itself stays what it is
@@ -502,7 +517,7 @@ func c12Run(c *core.Ctx) bool {
 	cov := map[string]any{
 		"evaluations":         total.Evaluations,
 		"distinct_nontrivial": distinct,
-		"rule":                "random project trees (files inside and outside declared outputs, nested directories, pre-existing and missing outputs, a sibling directory and files above the project, symlinks to a file, to a directory inside and to a directory outside the project, file names containing '[', '?', a backslash and '..', with/without an existing cache; in 20% of the cases the project and $HOME are reached through a symlinked directory) x spokfiles declaring 0-5 outputs: literal files/directories (also spelled with a leading slash or as an absolute path of a file beside the project: still relative to the spokfile), variables (relative, or absolute via join), globs (matching files, directories, nothing, '*' which matches the spokfile) and in 30% of the cases dangerous values ('', '.', '..', './', 'build/..', 'spokfile', '../proj', ...); with/without a task named clean; invoked from the project root or a nested directory. Race-built binary under strace -f; monitors: full before/after snapshot (path, type, mode, sha256) of the whole sandbox and every successful unlink/rmdir/rename/open-for-write/truncate/chmod/mkdir resolved to an absolute path. evaluations = traced invocations; non-trivial = distinct cases with >=1 designated output (or a refusal, or a clean task) that passed every clause",
+		"rule":                "random project trees (files inside and outside declared outputs, nested directories, pre-existing and missing outputs, a sibling directory and files above the project, symlinks to a file, to a directory inside and to a directory outside the project, file names containing '[', '?', a backslash and '..', with/without an existing cache; in 20% of the cases the project and $HOME are reached through a symlinked directory; in 25% the project directory is called ..proj, proj.., ..., -proj, 'pro j', proj[1] or ~proj) x spokfiles declaring 0-5 outputs: literal files/directories (also spelled with a leading slash or as an absolute path of a file beside the project: still relative to the spokfile), variables (relative, or absolute via join), globs (matching files, directories, nothing, '*' which matches the spokfile) and in 30% of the cases dangerous values ('', '.', '..', './', 'build/..', 'spokfile', '../proj', ...); with/without a task named clean; invoked from the project root or a nested directory. Race-built binary under strace -f; monitors: full before/after snapshot (path, type, mode, sha256) of the whole sandbox and every successful unlink/rmdir/rename/open-for-write/truncate/chmod/mkdir resolved to an absolute path. evaluations = traced invocations; non-trivial = distinct cases with >=1 designated output (or a refusal, or a clean task) that passed every clause",
 		"samples":             total.Samples,
 		"counters":            total.Counters,
 		"exhaustive":          false,
